@@ -3,7 +3,9 @@ package c16cond
 import (
 	"context"
 	"fmt"
+	"runtime"
 	"sync"
+	"sync/atomic"
 	"testing"
 	"testing/synctest"
 
@@ -28,6 +30,16 @@ type Round struct {
 	K      int    `json:"k"`
 	Parked []bool `json:"parked"` // per waiter: let through to park, or held between unlock and park
 	Steps  []Step `json:"steps"`
+	// Pre: per initial waiter, its context has already ended when it calls Wait
+	Pre []bool `json:"pre,omitempty"`
+	// Late: waiters that enter Wait in the middle of the script (step "enter"), i.e. after Signals that
+	// may have left a remembered wakeup behind and while earlier waiters sit between unlock and park
+	Late []LateW `json:"late,omitempty"`
+}
+
+type LateW struct {
+	Parked bool `json:"parked"`
+	Pre    bool `json:"pre,omitempty"`
 }
 
 // Plan: one or two rounds on the same ContextCond (the second round meets whatever channel state the
@@ -48,12 +60,20 @@ func genRound(t *rapid.T) Round {
 	p := Round{K: rapid.IntRange(1, 5).Draw(t, "k")}
 	for i := 0; i < p.K; i++ {
 		p.Parked = append(p.Parked, rapid.Bool().Draw(t, "parked"))
+		p.Pre = append(p.Pre, rapid.IntRange(0, 7).Draw(t, "pre") == 0)
+	}
+	for nl := rapid.SampledFrom([]int{0, 0, 1, 2, 3}).Draw(t, "nlate"); nl > 0; nl-- {
+		p.Late = append(p.Late, LateW{Parked: rapid.Bool().Draw(t, "lparked"), Pre: rapid.IntRange(0, 7).Draw(t, "lpre") == 0})
+	}
+	ops := []string{"signal", "signal", "signal", "broadcast", "open", "open", "cancel", "cancel", "lock", "unlock"}
+	if len(p.Late) > 0 {
+		ops = append(ops, "enter", "enter", "enter")
 	}
 	racy := rapid.IntRange(0, 3).Draw(t, "racy") == 0
 	n := rapid.IntRange(0, 8).Draw(t, "n")
 	for i := 0; i < n; i++ {
-		s := Step{Op: rapid.SampledFrom([]string{"signal", "signal", "signal", "broadcast", "open", "open", "cancel", "cancel", "lock", "unlock"}).Draw(t, "op"),
-			W: rapid.IntRange(0, p.K-1).Draw(t, "w"), Quiesce: true}
+		s := Step{Op: rapid.SampledFrom(ops).Draw(t, "op"),
+			W: rapid.IntRange(0, p.K+len(p.Late)-1).Draw(t, "w"), Quiesce: true}
 		if racy {
 			s.Quiesce = rapid.Bool().Draw(t, "q")
 		}
@@ -124,7 +144,7 @@ type waiter struct {
 
 func run(pl Plan) (out vk.Outcome, verr error) {
 	for _, p := range pl.Rounds {
-		if p.K < 1 || len(p.Parked) != p.K {
+		if p.K < 1 || len(p.Parked) != p.K || p.K+len(p.Late) > 8 || (len(p.Pre) != 0 && len(p.Pre) != p.K) {
 			return out, fmt.Errorf("bad plan")
 		}
 	}
@@ -161,12 +181,24 @@ func run(pl Plan) (out vk.Outcome, verr error) {
 }
 
 func script(l *gatedLocker, c *xsync.ContextCond, p Round, out *vk.Outcome, everSignalled *bool) error {
-	ws := make([]*waiter, p.K)
+	ws := make([]*waiter, 0, p.K+len(p.Late))
 	var mu sync.Mutex
+	cancelled := map[int]bool{}
+	pre := func(i int) bool {
+		if i < p.K {
+			return i < len(p.Pre) && p.Pre[i]
+		}
+		return p.Late[i-p.K].Pre
+	}
 	start := func(i int) {
 		w := &waiter{gate: make(chan struct{}), done: make(chan struct{})}
 		w.ctx, w.cancel = context.WithCancel(context.Background())
-		ws[i] = w
+		if pre(i) {
+			w.cancel()
+			cancelled[i] = true
+			out.Label("context-ended-before-wait")
+		}
+		ws = append(ws, w)
 		go func() {
 			defer close(w.done)
 			l.Lock()
@@ -211,7 +243,9 @@ func script(l *gatedLocker, c *xsync.ContextCond, p Round, out *vk.Outcome, ever
 	inWindow := map[int]bool{} // used for labels only
 	for i := 0; i < p.K; i++ {
 		if p.Parked[i] {
-			init.parked |= 1 << uint(i)
+			if !cancelled[i] { // a waiter whose context had already ended has left again
+				init.parked |= 1 << uint(i)
+			}
 		} else {
 			init.window |= 1 << uint(i)
 			inWindow[i] = true
@@ -230,21 +264,76 @@ func script(l *gatedLocker, c *xsync.ContextCond, p Round, out *vk.Outcome, ever
 		return outS
 	}
 	coalesced, uncertain := false, false
-	cancelled := map[int]bool{}
 	signals, broadcasts := 0, 0
+	var enteredAtSignal [][]int // per Signal: the waiters that had entered Wait before it
+	enteredBeforeLastBroadcast := map[int]bool{}
+	nextLate := 0
+	// openModel: waiter w leaves the window between unlock and park
+	openModel := func(w int) {
+		bit := uint8(1) << uint(w)
+		var nx []mstate
+		for _, st := range states {
+			if st.window&bit == 0 {
+				nx = append(nx, st)
+				continue
+			}
+			st.window &^= bit
+			if cancelled[w] { // it returns either way; it may or may not take a token with it
+				nx = append(nx, st)
+				if st.token {
+					st.token = false
+					nx = append(nx, st)
+				}
+			} else if st.token {
+				st.token = false
+				nx = append(nx, st)
+			} else {
+				st.parked |= bit
+				nx = append(nx, st)
+			}
+		}
+		states = dedup(nx)
+	}
 	held := false // the harness itself holds c.L (a producer may Signal/cancel inside its critical section)
 	signalWithWindow := false
 	prevQuiesced := true
 	for _, s := range p.Steps {
-		if s.W >= p.K {
-			s.W = p.K - 1
+		if s.W >= len(ws) {
+			s.W = len(ws) - 1
 		}
 		if !prevQuiesced {
 			uncertain = true
 		}
 		switch s.Op {
+		case "enter":
+			if held || nextLate >= len(p.Late) {
+				break // (while the harness holds c.L nobody can get as far as Wait)
+			}
+			i := p.K + nextLate
+			lw := p.Late[nextLate]
+			nextLate++
+			start(i)
+			synctest.Wait() // it has released the lock and sits at its gate
+			for k := range states {
+				states[k].window |= 1 << uint(i)
+			}
+			inWindow[i] = true
+			out.Label("late-entrant")
+			if lw.Parked {
+				delete(inWindow, i)
+				openModel(i)
+				open(i)
+				synctest.Wait()
+			}
 		case "signal":
 			signals++
+			enteredAtSignal = append(enteredAtSignal, func() []int {
+				var e []int
+				for i := range ws {
+					e = append(e, i)
+				}
+				return e
+			}())
 			if len(inWindow) > 0 {
 				signalWithWindow = true
 			}
@@ -257,7 +346,7 @@ func script(l *gatedLocker, c *xsync.ContextCond, p Round, out *vk.Outcome, ever
 					}
 					nx = append(nx, st)
 				case st.parked != 0:
-					for b := 0; b < p.K; b++ {
+					for b := 0; b < 8; b++ {
 						if st.parked&(1<<uint(b)) != 0 {
 							n2 := st
 							n2.parked &^= 1 << uint(b)
@@ -274,6 +363,10 @@ func script(l *gatedLocker, c *xsync.ContextCond, p Round, out *vk.Outcome, ever
 			c.Signal()
 		case "broadcast":
 			broadcasts++
+			enteredBeforeLastBroadcast = map[int]bool{}
+			for i := range ws {
+				enteredBeforeLastBroadcast[i] = true
+			}
 			inWindow = map[int]bool{}
 			states = []mstate{{}}
 			c.Broadcast()
@@ -281,31 +374,7 @@ func script(l *gatedLocker, c *xsync.ContextCond, p Round, out *vk.Outcome, ever
 			if inWindow[s.W] {
 				delete(inWindow, s.W)
 			}
-			{
-				bit := uint8(1) << uint(s.W)
-				var nx []mstate
-				for _, st := range states {
-					if st.window&bit == 0 {
-						nx = append(nx, st)
-						continue
-					}
-					st.window &^= bit
-					if cancelled[s.W] { // it returns either way; it may or may not take a token with it
-						nx = append(nx, st)
-						if st.token {
-							st.token = false
-							nx = append(nx, st)
-						}
-					} else if st.token {
-						st.token = false
-						nx = append(nx, st)
-					} else {
-						st.parked |= bit
-						nx = append(nx, st)
-					}
-				}
-				states = dedup(nx)
-			}
+			openModel(s.W)
 			open(s.W)
 		case "lock":
 			if !held {
@@ -385,22 +454,32 @@ func script(l *gatedLocker, c *xsync.ContextCond, p Round, out *vk.Outcome, ever
 	}
 	var verr error
 	if broadcasts > 0 && signals == 0 {
-		// every phase-1 waiter that was waiting at the (last) Broadcast is awake; with Broadcast all of them were
+		// every waiter that had entered Wait before the (last) Broadcast is awake
 		for i, w := range ws {
 			mu.Lock()
 			ret := w.returned
 			mu.Unlock()
-			if !ret {
+			if !ret && enteredBeforeLastBroadcast[i] {
 				verr = vk.Violf("broadcast-missed", "waiter %d still blocked after Broadcast (k=%d, plan %s)", i, p.K, vk.Short(p))
 			}
 		}
 	} else if broadcasts == 0 {
-		need := signals
-		if p.K-nc < need {
-			need = p.K - nc
+		// Each Signal wakes one of the waiters that entered before it and are still asleep, if there is one
+		// (waiters whose context ends at some point are not counted: they may leave on their own).
+		need := 0
+		for _, entered := range enteredAtSignal {
+			e := 0
+			for _, i := range entered {
+				if !cancelled[i] {
+					e++
+				}
+			}
+			if e > need {
+				need++
+			}
 		}
 		if nilReturns < need {
-			verr = vk.Violf("too-few-woken", "%d Signals with %d waiters inside Wait (%d of them cancelled) woke only %d; plan %s", signals, p.K, nc, nilReturns, vk.Short(p)).
+			verr = vk.Violf("too-few-woken", "%d Signals with %d waiters inside Wait (%d of them cancelled) woke only %d, at least %d were owed a wakeup; plan %s", signals, len(ws), nc, nilReturns, need, vk.Short(p)).
 				With("coalesced", coalesced || (uncertain && signals >= 2)).With("signals", signals)
 		}
 	} else {
@@ -416,7 +495,7 @@ func script(l *gatedLocker, c *xsync.ContextCond, p Round, out *vk.Outcome, ever
 			mu.Lock()
 			ret := w.returned
 			mu.Unlock()
-			if !ret {
+			if !ret && enteredBeforeLastBroadcast[i] {
 				verr = vk.Violf("broadcast-missed", "waiter %d still blocked although a Broadcast was issued after it entered Wait; plan %s", i, vk.Short(p))
 			}
 		}
@@ -444,7 +523,7 @@ func script(l *gatedLocker, c *xsync.ContextCond, p Round, out *vk.Outcome, ever
 	if coalesced {
 		out.Label("coalesced-signals")
 	}
-	if p.K >= 2 && (signalWithWindow || (broadcasts > 0 && len(p.Parked) > 0 && hasWindow(p))) {
+	if len(ws) >= 2 && (signalWithWindow || (broadcasts > 0 && len(p.Parked) > 0 && hasWindow(p))) {
 		out.NonTrivial = true
 	}
 	return verr
@@ -476,4 +555,113 @@ func runReps(p Plan) (vk.Outcome, error) {
 func TestContextCond(t *testing.T) {
 	theT = t
 	vk.Run(t, suite, "cond", 2000, genPlan, runReps)
+}
+
+// ---------------------------------------------------------------- Broadcast overlapping other calls, real parallelism
+//
+// The scripted plans start calls one after the other; a Broadcast that runs while another goroutine
+// is inside Signal or on its way into Wait needs real parallelism and many tries. Per round: K waiters
+// park, then noise goroutines hammer the cond (Waits whose context has already ended, or Signals)
+// while the harness calls Broadcast once. Every waiter entered before that Broadcast, so at the next
+// quiescence all of them must have returned nil. (Decided inside a bubble: no timeouts.)
+
+type BStormPlan struct {
+	K      int    `json:"k"`
+	Noise  string `json:"noise"` // ended-waits | signals | both
+	M      int    `json:"m"`     // noise goroutines
+	Rounds int    `json:"rounds"`
+}
+
+func genBStorm(t *rapid.T) BStormPlan {
+	return BStormPlan{K: rapid.IntRange(2, 4).Draw(t, "k"), Noise: rapid.SampledFrom([]string{"ended-waits", "ended-waits", "signals", "both"}).Draw(t, "noise"),
+		M: rapid.IntRange(1, 3).Draw(t, "m"), Rounds: rapid.IntRange(100, 400).Draw(t, "rounds")}
+}
+
+type chanLock chan struct{}
+
+func (l chanLock) Lock()   { l <- struct{}{} }
+func (l chanLock) Unlock() { <-l }
+
+func runBStorm(p BStormPlan) (out vk.Outcome, verr error) {
+	var stuck string
+	func() {
+		defer func() {
+			if r := recover(); r != nil {
+				stuck = fmt.Sprint(r)
+			}
+		}()
+		synctest.Test(theT, func(t *testing.T) {
+			defer func() {
+				if r := recover(); r != nil {
+					verr = vk.Violf("panic", "panic inside bubble: %v", r)
+				}
+			}()
+			ended, cancel := context.WithCancel(context.Background())
+			cancel()
+			for round := 0; round < p.Rounds && verr == nil; round++ {
+				l := make(chanLock, 1)
+				c := xsync.NewContextCond(l)
+				live, stopAll := context.WithCancel(context.Background())
+				returned := make([]atomic.Bool, p.K)
+				var wg sync.WaitGroup
+				for i := 0; i < p.K; i++ {
+					wg.Add(1)
+					go func(i int) {
+						defer wg.Done()
+						l.Lock()
+						if err := c.Wait(live); err == nil {
+							returned[i].Store(true)
+							l.Unlock()
+						}
+					}(i)
+				}
+				synctest.Wait() // all K are parked inside Wait
+				var stop atomic.Bool
+				var noise sync.WaitGroup
+				for m := 0; m < p.M; m++ {
+					noise.Add(1)
+					go func(m int) {
+						defer noise.Done()
+						for n := 0; !stop.Load() && n < 100000; n++ {
+							if p.Noise == "signals" || (p.Noise == "both" && m%2 == 1) {
+								c.Signal()
+								runtime.Gosched()
+								continue
+							}
+							l.Lock()
+							if err := c.Wait(ended); err == nil {
+								l.Unlock()
+							}
+						}
+					}(m)
+				}
+				for k := 0; k < (round%8)*50; k++ {
+					runtime.Gosched()
+				}
+				c.Broadcast()
+				stop.Store(true)
+				noise.Wait()
+				synctest.Wait()
+				for i := range returned {
+					if !returned[i].Load() {
+						verr = vk.Violf("broadcast-missed", "round %d: waiter %d of %d was parked inside Wait before Broadcast was called (which overlapped %d goroutines doing %s) and is still blocked at quiescence", round, i, p.K, p.M, p.Noise)
+					}
+				}
+				stopAll()
+				wg.Wait()
+			}
+		})
+	}()
+	if stuck != "" && verr == nil {
+		verr = vk.Violf("stuck", "%s", stuck)
+	}
+	out.NonTrivial = true
+	out.Execs = p.Rounds
+	out.Label("broadcast-storm/" + p.Noise)
+	return out, verr
+}
+
+func TestBroadcastStorm(t *testing.T) {
+	theT = t
+	vk.Run(t, suite, "broadcast-storm", 40, genBStorm, runBStorm)
 }
